@@ -158,8 +158,13 @@ def generic(prop, cfg, tier, seed, parts, extra_viol=(), extra_cov=None, extra_k
 
 
 def run_c03(prop, cfg, tier, seed):
+    # the front-end through the model (pv/front_model.py): acceptance of a grammar text by the real tool = a match of the
+    # start rule of pigeon.peg's tables under the Lean runtime model; a rejection carries the model's diagnostic
+    from . import front_model
+    fviol, fcov = front_model.run(prop, tier, seed, 250, 6000)
     return generic(prop, cfg, tier, seed,
-                   [("pvfront", 1500, 40000, ["-k", "3"], {"classdash": "D3", "multilineeos": "D20", "slashslashbrace": "D21", "reserved": "F1", "quotebyte": "F2"})])
+                   [("pvfront", 1500, 40000, ["-k", "3"], {"classdash": "D3", "multilineeos": "D20", "slashslashbrace": "D21", "reserved": "F1", "quotebyte": "F2"})],
+                   extra_viol=fviol, extra_cov=fcov)
 
 
 DOCUMENTED_EXITS = {0, 1, 2, 3, 4, 5, 6, 7, 8, 9}
@@ -221,9 +226,14 @@ def run_c13(prop, cfg, tier, seed):
     from . import gram_check
     gviol, gcov = gram_check.for_property(prop)
     gcov["corpus_runs"] = n
+    # the front-end through the model: the parsing stage of the tool is the runtime model run on the regenerated tables
+    # of pigeon.peg (the subject of the termination theorem above) - verdict and diagnostic of `pigeon -x` predicted
+    from . import front_model
+    fviol, fcov = front_model.run(prop, tier, seed, 250, 6000)
+    gcov.update(fcov)
     return generic(prop, cfg, tier, seed,
                    [("pvtool", 700, 12000, ["-lift", "optthrow"], {"norecoverpanic": "F4"})],
-                   extra_viol=viol + gviol, extra_cov=gcov, extra_kf=kf)
+                   extra_viol=viol + gviol + fviol, extra_cov=gcov, extra_kf=kf)
 
 
 def run_c04(prop, cfg, tier, seed):
